@@ -33,6 +33,26 @@ Theorem pair_up_is_sent_order :
              tcp (pair_up l (seq 0 (count l))) ++ udp (pair_up l (seq 0 (count l)))) = http l ++ tls l ++ tcp l ++ udp l.
 Proof. exact pair_up_order. Qed.
 
+(** receive_conserves: for EVERY message and EVERY list of received descriptors
+    (matching the manifest or not, too many, too few, manifest cut short or
+    undecodable), each descriptor is either handed to the caller inside the
+    listeners or closed by [receive_listeners] itself: none stays open and
+    unreferenced in the receiving process (after fix eff100b) *)
+Theorem receive_conserves :
+  forall msg fds r closed, receive_acct msg fds = (r, closed) -> held_after r ++ closed = fds.
+Proof. exact receive_conserves_lemma. Qed.
+
+(** failed_receive_holds_no_fd: a receive that fails hands nothing over and has closed everything it was given *)
+Theorem failed_receive_holds_no_fd :
+  forall msg fds e closed, receive_acct msg fds = (RErr e, closed) ->
+    held_after (RErr e : rres (listeners (list N * nat))) = [] /\ closed = fds.
+Proof. exact failed_receive_lemma. Qed.
+
+Example failed_receive_nonvacuous :
+  (* two addresses announced, one descriptor received *)
+  fst (receive_acct (encode (mkl [[49;46;49;46;49;46;49;58;49]%N; [49;46;49;46;49;46;49;58;50]%N] [] [] [])) [7]) = RErr EInconsistent.
+Proof. vm_compute. reflexivity. Qed.
+
 (** no_fd_lost: once the old worker has returned its listen sockets (the
     descriptors travel as SCM_RIGHTS copies in the message; the worker drops its
     own), EVERY interleaving of receive / old-worker exit / old-worker crash /
